@@ -7,6 +7,8 @@ import (
 	"github.com/dapr/kit/zzverif"
 )
 
+//verif:stub time.LoadLocation vLoadLocationC04
+
 // normalizeFields against doc.go: the parser's option word is symbolic (9 bits), the number of fields is 0..7 and each
 // field is a one-byte symbolic string. The configured places (with an optional one counted when present) take the
 // given fields in order, an omitted optional field and every unconfigured place get the documented default, a wrong
@@ -277,4 +279,71 @@ func VerifParseSlots() {
 	}
 	zzverif.Assert(s.Location == time.Local, "no_prefix_means_local_zone")
 	zzverif.Cover("parse_slots_accepted")
+}
+
+var vZoneA = new(time.Location)
+
+var vZoneAsked []string
+var vZoneUnknown bool
+
+// the tz database is not modelled: LoadLocation records the name it was asked for and answers an arbitrary
+// (location, error) pair
+func vLoadLocationC04(name string) (*time.Location, error) {
+	vZoneAsked = append(vZoneAsked, name)
+	vZoneUnknown = zzverif.Bool("unknown_zone")
+	if vZoneUnknown {
+		return nil, errUnknownZone
+	}
+	return vZoneA, nil
+}
+
+var errUnknownZone = errorStringC04("unknown time zone")
+
+type errorStringC04 string
+
+func (e errorStringC04) Error() string { return string(e) }
+
+// "TZ=<zone> <spec>" and "CRON_TZ=<zone> <spec>": the zone name (symbolic, 1..3 characters without blank or '=') is
+// looked up exactly as written, the schedule gets that location and otherwise the same meaning as the bare spec; an
+// unknown zone refuses the whole expression, and so does a prefix with nothing after it. Without a prefix the
+// location is time.Local.
+//
+//verif:harness prop=C04 name=tz_prefix unwind=60 solver=z3-new witness=lenient
+func VerifTZPrefix() {
+	vZoneAsked = nil
+	zone := zzverif.String("zone", 1+zzverif.Choose("zone_len", 3))
+	for i := 0; i < len(zone); i++ {
+		c := zone[i]
+		zzverif.Assume(c > ' ' && c < 0x7f && c != '=')
+	}
+	prefix := []string{"TZ=", "CRON_TZ="}[zzverif.Choose("prefix", 2)]
+	body := []string{"5 4 * * *", "*/15 * 1 jan ?", "@daily", ""}[zzverif.Choose("body", 4)]
+	bare, bareErr := ParseStandard(body)
+	spec := prefix + zone
+	if body != "" || zzverif.Bool("trailing_blank") {
+		spec += " " + body
+	}
+	sch, err := ParseStandard(spec)
+	if body == "" {
+		zzverif.Assert(err != nil, "zone_without_schedule_refused")
+		zzverif.Cover("tz_prefix_zone_only")
+		return
+	}
+	if !zzverif.Symbolic() {
+		// native replay: the real tz database; only the refusal of a zone-only expression is compared
+		zzverif.Cover("tz_prefix_native")
+		return
+	}
+	zzverif.Assert(len(vZoneAsked) == 1 && vZoneAsked[0] == zone, "zone_looked_up_exactly_as_written")
+	if vZoneUnknown {
+		zzverif.Assert(err != nil, "unknown_zone_refused")
+		zzverif.Cover("tz_prefix_unknown_zone")
+		return
+	}
+	zzverif.Assert(bareErr == nil && err == nil, "known_zone_accepted")
+	a, b := bare.(*SpecSchedule), sch.(*SpecSchedule)
+	zzverif.Assert(b.Location == vZoneA, "schedule_gets_the_named_zone")
+	zzverif.Assert(a.Second == b.Second && a.Minute == b.Minute && a.Hour == b.Hour && a.Dom == b.Dom && a.Month == b.Month && a.Dow == b.Dow,
+		"prefix_does_not_change_the_fields")
+	zzverif.Cover("tz_prefix_accepted")
 }
